@@ -458,4 +458,23 @@ Section A.
     unfold ap_offset_by. cbv zeta. cbn [fst snd]. rewrite ap_wrap360_R. num_R.
     split; [apply Rfmod_bound; apply twoPI_pos | apply asin_bound].
   Qed.
+  (* every event of the post-sampling processing keeps its separation with respect to ITS OWN source *)
+  Lemma post_sampling_ap_own_source (srcs : list (R * R)) (evs : list (ps_event (T := R))) i k tra tdec rra rdec sra sdec :
+    nth_error evs i = Some (k, (tra, tdec), (rra, rdec)) ->
+    nth_error srcs k = Some (sra, sdec) ->
+    astropy_exact sdec ->
+    exists out, nth_error (post_sampling_ap N srcs evs) i = Some (Some out)
+      /\ angsep N (fst out) (snd out) sra sdec None = angsep N rra rdec tra tdec None
+      /\ 0 <= fst out < 2 * PI /\ - (PI / 2) <= snd out <= PI / 2.
+  Proof.
+    intros He Hs Hx. unfold post_sampling_ap.
+    exists (rses_ap N sra sdec tra tdec rra rdec).
+    split.
+    - rewrite (map_nth_error _ _ _ He). cbn [fst snd]. rewrite Hs. reflexivity.
+    - split; [apply rses_ap_preserves_sep; exact Hx | apply rses_ap_range].
+  Qed.
+
+  Lemma post_sampling_ap_length (srcs : list (R * R)) (evs : list (ps_event (T := R))) :
+    length (post_sampling_ap N srcs evs) = length evs.
+  Proof. unfold post_sampling_ap. apply map_length. Qed.
 End A.
